@@ -131,6 +131,9 @@ pub mod scheduler;
 pub mod desync;
 pub mod pipe;
 
+#[cfg(feature = "verif-hooks")]
+pub mod verif;
+
 pub use self::scheduler::{TrySyncError};
 pub use self::desync::*;
 pub use self::pipe::*;
